@@ -307,9 +307,11 @@ func runShard(b *build, prop, tier string, seed int64, shard, nshards int, a *ag
 		// watchdog: no progress (output file growth) for a long time => SIGQUIT dump
 		var lastSize int64 = -1
 		lastChange := time.Now()
-		stall := 120 * time.Second
+		// generous: a case is normally milliseconds (seconds for the 260 K-job bursts of the thorough tier); the
+		// firing of this watchdog is never a verdict by itself (the dump decides between hang and inconclusive)
+		stall := 420 * time.Second
 		if b.race {
-			stall = 300 * time.Second
+			stall = 900 * time.Second
 		}
 		var werr error
 		watchdogFired := false
